@@ -45,3 +45,12 @@ func VerifSetFieldCapacityWithGW(g *GlobalVarsMain) {
 func VerifReadConfig(g *GlobalVarsMain, argValues map[string]string, hp *HFilePath) Config {
 	return readConfig(g, argValues, hp)
 }
+
+// VerifConfig, when set, is called with the effective configuration of a run right after readConfig.
+var VerifConfig func(c *Config, g *GlobalVarsMain)
+
+func verifConfig(c *Config, g *GlobalVarsMain) {
+	if VerifConfig != nil {
+		VerifConfig(c, g)
+	}
+}
